@@ -989,7 +989,8 @@ namespace BitSerializer::Convert::Utf
 		}
 
 		[[nodiscard]] bool IsEnd() const noexcept {
-			return mStartDataPtr == mEndDataPtr && mInputStream.eof();
+			// Nothing more can be read from a stream in a failed state (e.g. a file that was not opened or an I/O error)
+			return mStartDataPtr == mEndDataPtr && (mInputStream.eof() || mInputStream.fail());
 		}
 
 		[[nodiscard]] UtfType GetSourceUtfType() const noexcept {
@@ -1030,7 +1031,7 @@ namespace BitSerializer::Convert::Utf
 			const auto result = TUtf::Decode(reinterpret_cast<typename TUtf::char_type*>(mStartDataPtr), GetAlignedEndDataPtr<typename TUtf::char_type>(), outStr, mEncodingErrorPolicy, mErrorMark);
 			mStartDataPtr = reinterpret_cast<char*>(result.Iterator);
 			assert(mStartDataPtr <= mEndDataPtr);
-			if (mInputStream.eof())
+			if (mInputStream.eof() || mInputStream.fail())
 			{
 				// Handle uncompleted sequence at the end of file (also when the remainder is shorter than one code unit)
 				const bool hasCroppedCodeUnit = result.ErrorCode == UtfEncodingErrorCode::Success && mStartDataPtr != mEndDataPtr;
